@@ -6,12 +6,15 @@ Open Scope N_scope.
 Section Helpers.
 Variable A : lexpr -> N -> K -> aexpr * N.
 
+Definition anf_named_g (e : lexpr) (n : N) (k : KI) : aexpr * N :=
+  let name := tname n in
+  A e (n + 1) (fun c n' => let (body, n'') := k (IVar name) n' in (ALet name c body, n'')).
+
 Definition anf_imm_g (e : lexpr) (n : N) (k : KI) : aexpr * N :=
   match e with
   | LVar x => k (IVar x) n
-  | LPrim p => k (IPrim p) n
-  | _ => let name := tname n in
-         A e (n + 1) (fun c n' => let (body, n'') := k (IVar name) n' in (ALet name c body, n''))
+  | LPrim p _ => k (IPrim p) n
+  | _ => anf_named_g e n k
   end.
 
 Definition anf_list_g := fix go (es : list lexpr) (n : N) (k : KL) {struct es} : aexpr * N :=
@@ -31,7 +34,7 @@ Lemma anf_S fuel e n k : anf (S fuel) e n k =
   let A := anf fuel in
   match e with
   | LVar x => k (CImm (IVar x)) n
-  | LPrim p => k (CImm (IPrim p)) n
+  | LPrim p _ => k (CImm (IPrim p)) n
   | LTag i => k (CImm (ITag i)) n
   | LConstr c args => anf_list_g A args n (fun a n' => k (CConstr c a) n')
   | LTuple items => anf_list_g A items n (fun a n' => k (CTuple a) n')
@@ -54,7 +57,9 @@ Lemma anf_S fuel e n k : anf (S fuel) e n k =
         k (CMatch si aa da) n3)
   | LGet x c i => anf_imm_g A x n (fun a n' => k (CGet a c i) n')
   | LUn op x => anf_imm_g A x n (fun a n' => k (CUn op a) n')
-  | LBin op l r => anf_imm_g A l n (fun li n1 => anf_imm_g A r n1 (fun ri n2 => k (CBin op li ri) n2))
+  | LBin op l r =>
+      (if name_lhs op l r then anf_named_g A else anf_imm_g A) l n (fun li n1 =>
+        (if name_rhs op r then anf_named_g A else anf_imm_g A) r n1 (fun ri n2 => k (CBin op li ri) n2))
   | LCall f args => anf_imm_g A f n (fun fi n1 => anf_list_g A args n1 (fun a n2 => k (CCall fi a) n2))
   | LToDyn tr x => anf_imm_g A x n (fun a n' => k (CToDyn tr a) n')
   | LDynCall tr m recv args => anf_imm_g A recv n (fun ri n1 => anf_list_g A args n1 (fun a n2 => k (CDynCall tr m ri a) n2))
@@ -80,14 +85,25 @@ Variable A : lexpr -> N -> K -> aexpr * N.
 Variable f : nat.
 Hypothesis IH : forall e, (depth e <= f)%nat -> forall n k tail, Kok k tail -> ord_a (fst (A e n k)) = ord_src e ++ tail.
 
+Lemma named_ok e : (depth e <= f)%nat -> forall n k tail, KIok k tail ->
+  ord_a (fst (anf_named_g A e n k)) = ord_src e ++ tail.
+Proof.
+  intros Hd n k tail Hk. unfold anf_named_g.
+  apply IH; [exact Hd|]. intros c n'. specialize (Hk (IVar (tname n)) n'). destruct (k (IVar (tname n)) n') as [body n'']. cbn in *. rewrite Hk. reflexivity.
+Qed.
+
 Lemma imm_ok e : (depth e <= f)%nat -> forall n k tail, KIok k tail ->
   ord_a (fst (anf_imm_g A e n k)) = ord_src e ++ tail.
 Proof.
   intros Hd n k tail Hk.
-  assert (G : ord_a (fst (A e (n + 1) (fun c n' => let (body, n'') := k (IVar (tname n)) n' in (ALet (tname n) c body, n'')))) = ord_src e ++ tail).
-  { apply IH; [exact Hd|]. intros c n'. specialize (Hk (IVar (tname n)) n'). destruct (k (IVar (tname n)) n') as [body n'']. cbn in *. rewrite Hk. reflexivity. }
+  pose proof (named_ok e Hd n k tail Hk) as G.
   destruct e; try exact G; cbn; apply Hk.
 Qed.
+
+(** either way of turning an operand into an immediate *)
+Lemma either_ok (b : bool) e : (depth e <= f)%nat -> forall n k tail, KIok k tail ->
+  ord_a (fst ((if b then anf_named_g A else anf_imm_g A) e n k)) = ord_src e ++ tail.
+Proof. destruct b; [apply named_ok|apply imm_ok]. Qed.
 
 Lemma list_ok es : (dl es <= f)%nat -> forall n k tail, KLok k (length es) tail ->
   ord_a (fst (anf_list_g A es n k)) = ords es ++ tail.
@@ -115,7 +131,7 @@ Theorem anf_keeps_order : forall fuel e, (depth e <= fuel)%nat ->
 Proof.
   induction fuel as [|f IH]; intros e Hd n k tail Hk; [destruct e; cbn in Hd; lia|].
   rewrite anf_S. cbv zeta.
-  pose proof (imm_ok (anf f) f IH) as IM. pose proof (list_ok (anf f) f IH) as LI. pose proof (arms_ok (anf f) f IH) as AR.
+  pose proof (imm_ok (anf f) f IH) as IM. pose proof (either_ok (anf f) f IH) as EI. pose proof (list_ok (anf f) f IH) as LI. pose proof (arms_ok (anf f) f IH) as AR.
   destruct e; cbn [depth] in Hd; cbn [ord_src].
   - apply Hk.
   - apply Hk.
@@ -142,7 +158,7 @@ Proof.
     + rewrite Hk. cbn [ord_c]. rewrite Ha. reflexivity.
   - rewrite <- app_assoc. apply IM; [lia|]. intros im n'. rewrite Hk. reflexivity.
   - rewrite <- app_assoc. apply IM; [lia|]. intros im n'. rewrite Hk. reflexivity.
-  - (* bin *) rewrite <- !app_assoc. apply IM; [lia|]. intros li n1. apply IM; [lia|]. intros ri n2. rewrite Hk. reflexivity.
+  - (* bin *) rewrite <- !app_assoc. apply EI; [lia|]. intros li n1. apply EI; [lia|]. intros ri n2. rewrite Hk. reflexivity.
   - (* call *) rewrite <- !app_assoc. apply IM; [lia|]. intros fi n1. apply LI; [unfold dl; lia|]. intros l n2 Hl. rewrite Hk. cbn [ord_c]. rewrite Hl. reflexivity.
   - rewrite <- app_assoc. apply IM; [lia|]. intros im n'. rewrite Hk. reflexivity.
   - (* dyn call *) rewrite <- !app_assoc. apply IM; [lia|]. intros fi n1. apply LI; [unfold dl; lia|]. intros l n2 Hl. rewrite Hk. cbn [ord_c]. rewrite Hl. reflexivity.
